@@ -18,6 +18,8 @@ QUICK = [
     ("gen-glob", {"nfiles": 8, "ndirs": 3, "bs": 4096, "hardlinks": True, "nohl": True}, 10),
     ("gen-glob", {"nfiles": 8, "ndirs": 3, "bs": 4096}, 10),
     ("gen-packdir", {"nfiles": 10, "ndirs": 5, "bs": 4096, "nohl": True, "xdev": True}, 16),
+    ("gen-packdir", {"nfiles": 4, "ndirs": 4, "bs": 4096, "nohl": True, "samenames": True, "specials": False}, 24),
+    ("gen-glob", {"nfiles": 4, "ndirs": 4, "bs": 4096, "nohl": True, "samenames": True, "specials": False}, 8),
     ("gen-glob-partial", {"nfiles": 10, "ndirs": 6, "bs": 4096, "nohl": True}, 24),
     ("gen-glob-partial", {"nfiles": 14, "ndirs": 9, "bs": 4096, "specials": True, "nohl": True}, 12),
 ]
